@@ -937,6 +937,24 @@ DIRECTED = {
         "t.go": 'package main\n\ntype Guitar struct{}\ntype Band struct{ G *Guitar }\n\nconst kessoku = "kessoku band"\n\nfunc NewGuitar() *Guitar      { return &Guitar{} }\nfunc NewBand(g *Guitar) *Band { return &Band{g} }\n',
         "main.go": 'package main\n\nfunc main() { println(InitIt().G != nil, kessoku) }\n',
         "wire.go": '//go:build wireinject\n\npackage main\n\nimport "github.com/google/wire"\n\nvar Set = wire.NewSet(NewGuitar, NewBand)\n\nfunc InitIt() *Band {\n\twire.Build(Set)\n\treturn nil\n}\n'},
+    # a dot import and an ordinary import of two packages with the SAME name in one wire file
+    "dot_import_same_name_import": {
+        "a/log/l.go": 'package log\n\ntype Logger struct{ S string }\n\nfunc New() *Logger { return &Logger{"a"} }\n\nvar Banner = "welcome (a)"\n',
+        "b/log/l.go": 'package log\n\ntype Sink struct{ S string }\n\nfunc NewSink() *Sink { return &Sink{"b"} }\n\nvar Banner = "welcome (b)"\n',
+        "t.go": 'package main\n\nimport (\n\talog "vscratch/NAME/a/log"\n\tblog "vscratch/NAME/b/log"\n)\n\ntype App struct {\n\tL *alog.Logger\n\tS *blog.Sink\n\tB string\n}\n\nfunc NewApp(l *alog.Logger, s *blog.Sink, b string) *App { return &App{l, s, b} }\n',
+        "main.go": 'package main\n\nfunc main() { a := InitApp(); println(a.L.S, a.S.S, a.B) }\n',
+        "wire.go": '//go:build wireinject\n\npackage main\n\nimport (\n\t"github.com/google/wire"\n\n\t. "vscratch/NAME/a/log"\n\t"vscratch/NAME/b/log"\n)\n\nvar Set = wire.NewSet(New, log.NewSink, wire.Value(Banner))\n\nfunc InitApp() *App {\n\twire.Build(Set, NewApp)\n\treturn nil\n}\n'},
+    # an unreferenced top-level wire.Struct of a type of another package: transformed for nothing, its import must not stay
+    "unused_named_struct_import": {
+        "conf/c.go": 'package conf\n\ntype Options struct{ N int }\n',
+        "t.go": 'package main\n\ntype Foo struct{ N int }\ntype App struct{ F *Foo }\n\nfunc NewFoo() *Foo       { return &Foo{} }\nfunc NewApp(f *Foo) *App { return &App{f} }\n',
+        "main.go": 'package main\n\nfunc main() { println(InitApp().F.N) }\n',
+        "wire.go": '//go:build wireinject\n\npackage main\n\nimport (\n\t"github.com/google/wire"\n\n\t"vscratch/NAME/conf"\n)\n\nvar optionsProvider = wire.Struct(new(conf.Options), "*")\n\nvar Set = wire.NewSet(NewFoo, NewApp)\n\nfunc InitApp() *App {\n\twire.Build(Set)\n\treturn nil\n}\n'},
+    # two fields that differ in case only: wire fills the FIRST field that matches the given name without regard to case
+    "field_names_case_two_matches": {
+        "t.go": 'package main\n\ntype Addr string\ntype Port int\ntype Endpoint struct {\n\tAddr Addr\n\taddr Port\n}\ntype Server struct {\n\tE *Endpoint\n\tP Port\n}\n\nfunc NewAddr() Addr { return "localhost" }\nfunc NewPort() Port { return 8080 }\nfunc NewServer(e *Endpoint, p Port) *Server { return &Server{e, p} }\n',
+        "main.go": 'package main\n\nfunc main() { s := InitServer(); println(string(s.E.Addr), int(s.E.addr), int(s.P)) }\n',
+        "wire.go": '//go:build wireinject\n\npackage main\n\nimport "github.com/google/wire"\n\nfunc InitServer() *Server {\n\twire.Build(NewAddr, NewPort, NewServer, wire.Struct(new(Endpoint), "addr"))\n\treturn nil\n}\n'},
     # wire.Struct(new(T)) without field names fills no field (repaired: it was migrated as "*")
     "struct_no_field_names": {
         "t.go": 'package main\n\ntype Host string\n\ntype Config struct{ Host Host }\n\nfunc ProvideHost() Host { return "h" }\n\ntype App struct {\n\tC *Config\n\tH Host\n}\n\nfunc NewApp(c *Config, h Host) *App { return &App{c, h} }\n',
